@@ -240,7 +240,9 @@ Definition to_kind (from to : vk) (e : cexp) : cexp :=
 (** [vt]: type of the VHDL object written (root of the target), [tt]: type of the target expression, [st]: type of
     the value.  Non-primitive sources (literals, Null, Full) reach format_cast as a constant of the target type. *)
 Definition cast_emit (vt tt st : cty) : cexp :=
-  if negb (is_runtime st) then XLit (enc vt (conv_val st tt 0))
+  if negb (is_runtime st) then
+    (* format_literal(vhdl_target_type(constant of the target type)): the constructor of the root's kind *)
+    if ctor tt vt then XLit (enc vt (conv_val st tt 0)) else XFail
   else match tt with
   | CBit => match st with CBit => XSrc | CBool => XF1 FBoolToSl XSrc | _ => XFail end
   | CBool =>
